@@ -319,7 +319,8 @@ func VerifH_C18_bindConstants() {
 
 // The dynamic type handler rejects wrong arity / non-list first argument with an error, not a fault.
 func VerifH_C18_bindConstants_type() {
-	types := []schema.Type{schema.NewIntSchema(nil, nil, nil), schema.NewListSchema(schema.NewIntSchema(nil, nil, nil), nil, nil), nil}
+	// precondition: the expression type checker never passes a nil type
+	types := []schema.Type{schema.NewIntSchema(nil, nil, nil), schema.NewListSchema(schema.NewIntSchema(nil, nil, nil), nil, nil), schema.NewStringSchema(nil, nil, nil)}
 	n := verifrt.Choice("arity", 4)
 	in := make([]schema.Type, n)
 	for i := range in {
@@ -330,7 +331,7 @@ func VerifH_C18_bindConstants_type() {
 	if n == 2 {
 		_, wellFormed = in[0].(*schema.ListSchema)
 	}
-	if wellFormed && in[1] != nil {
+	if wellFormed {
 		verifrt.Reach("accepted")
 		verifrt.Assert(err == nil && t != nil, "HandleTypeSchemaCombine accepts (list, T)")
 	}
